@@ -417,7 +417,11 @@ def _one_run(c, cfg_label, cfg, repo_src, registry, snapshot_root, prefix):
     for pname, spec in c.params.items():
         env[pname] = cfg[pname] if pname in cfg else make_value(ex, st, spec, pname)
         if pname in arg_tf:
-            env[pname] = arg_tf[pname](ex, env[pname])
+            cur = env[pname]
+            if isinstance(cur, CellRef):
+                cur = st.cells[cur.cid]       # sequence arguments are handed to the transform as sequence values
+            new = arg_tf[pname](ex, cur)
+            env[pname] = ex.store_seq(st, new) if isinstance(new, Seq) else new
     c.setup(ex, st, cfg)
     _bind_defaults(ex, st, fnode, env, module)
     env["$module"] = module
@@ -518,6 +522,8 @@ def _verify_relational(c, cfg_label, cfg, repo_src, registry, snapshot_root, rr)
                 ctx1.add_obligation(st, "canary", f"exit{n}", z3.BoolVal(False), meta={"pair": n})
                 rr.exits["return"] += 1
         ctx1.global_axioms = list(ctx1.global_axioms) + list(ctx2.global_axioms)
+        for k_, v_ in ctx2.sum_registry.items():     # sums that only the second run builds need their lemmas too
+            ctx1.sum_registry.setdefault(k_, v_)
         ctx1.inputs.update(ctx2.inputs)
         for k in ("let_def_ids",):
             ctx1.__dict__.setdefault(k, set()).update(ctx2.__dict__.get(k, set()))
